@@ -79,12 +79,19 @@ def optimize_prec_assignment(model: MPS,
                     raise ValueError("Unsupported quantizer type")
 
                 best_cost = copy.deepcopy(base_cost)
-                best_cost_w_theta_alpha_array = copy.deepcopy(w_theta_alpha_array)
                 config_cost = _compute_cost(model, layer, w_theta_alpha_array, cost_fn_map, lname, node)
                 assert config_cost == base_cost, "The cost of the layer is not consistent with the original configuration"
 
                 sorted_indexes = torch.argsort(layer.w_mps_quantizer.precision)
                 sorted_precisions = [layer.w_mps_quantizer.precision[i] for i in sorted_indexes]
+                # the arrays below are sorted by increasing precision: `unsort` brings them back to
+                # the order of the precisions in the quantizer
+                inverse_indexes = torch.argsort(sorted_indexes)
+
+                def unsort(sorted_array):
+                    return [sorted_array[i] for i in inverse_indexes]
+
+                best_cost_w_theta_alpha_array = [copy.deepcopy(w_theta_alpha_array)[i] for i in sorted_indexes]
 
                 # Case 1: assign a channel at a time to a higher precision. Save the configuration if the cost decreases
                 w_theta_alpha_array_tmp = [copy.deepcopy(w_theta_alpha_array)[i] for i in sorted_indexes]
@@ -97,7 +104,7 @@ def optimize_prec_assignment(model: MPS,
                         while w_theta_alpha_array_tmp[i] > 0:
                             w_theta_alpha_array_tmp[i] -= (1. / n_alive_channels)
                             w_theta_alpha_array_tmp[j] += (1. / n_alive_channels)
-                            cost_tmp = _compute_cost(model, layer, w_theta_alpha_array_tmp, cost_fn_map, lname, node)
+                            cost_tmp = _compute_cost(model, layer, unsort(w_theta_alpha_array_tmp), cost_fn_map, lname, node)
                             if cost_tmp < best_cost:
                                 best_cost = cost_tmp
                                 best_cost_w_theta_alpha_array = copy.deepcopy(w_theta_alpha_array_tmp) # TODO: check sorting!!!
@@ -122,7 +129,7 @@ def optimize_prec_assignment(model: MPS,
                         while w_theta_alpha_array_tmp[i] > 0:
                             w_theta_alpha_array_tmp[i] -= (1. / n_alive_channels)
                             w_theta_alpha_array_tmp[j] += (1. / n_alive_channels)
-                            cost_tmp = _compute_cost(model, layer, w_theta_alpha_array_tmp, cost_fn_map, lname, node)
+                            cost_tmp = _compute_cost(model, layer, unsort(w_theta_alpha_array_tmp), cost_fn_map, lname, node)
                             if cost_tmp < best_cost:
                                 best_cost = cost_tmp
                                 best_cost_w_theta_alpha_array = copy.deepcopy(w_theta_alpha_array_tmp)
@@ -138,7 +145,7 @@ def optimize_prec_assignment(model: MPS,
                 best_model_cost += best_cost
 
                 # Sort the best configuration according to the original order of the precisions
-                best_theta_alpha_array = torch.tensor([best_cost_w_theta_alpha_array[i] for i in sorted_indexes])
+                best_theta_alpha_array = torch.tensor(unsort(best_cost_w_theta_alpha_array))
                 best_theta_alpha_array = torch.mul(best_theta_alpha_array, n_alive_channels)
 
                 # Update the layer with the best configuration.
